@@ -47,6 +47,9 @@ def plan(tier):
         CH("rerun_foreign", "harness.c16", "rerun_foreign", [f"0:{c},1:{a}" for c in range(2) for a in range(2)], timeout=t,
            desc="placeholder stubs of 1-3 foreign classes from up to 4 modules (two share their last name component): second run == first run",
            stubs=["in-memory FS"]),
+        CH("reexporters", "harness.c16", "reexporters", [f"0:{c},1:{h}" for c in range(2) for h in range(2)], timeout=t,
+           desc="class + function re-exported by any subset (>= 2) of five packages (ancestors / non-ancestors, by name / alias): model unchanged, second generation identical",
+           stubs=["in-memory FS"]),
         CH("inherited_twice", "harness.c16", "inherited_twice", [f"0:{s}" for s in range(N_FUN_SHAPES)], timeout=t,
            desc="same inherited method rendered identically in two subclasses"),
     ]
